@@ -12,6 +12,7 @@ import (
 	mrand "math/rand"
 	"strings"
 	"sync"
+	"sync/atomic"
 	"time"
 
 	mail "github.com/wneessen/go-mail"
@@ -214,6 +215,7 @@ func runC16Case(r *ev.Run, c c16Case) {
 	if c.Via == "custom" {
 		opts = append(opts, mail.WithSMTPAuthCustom(c16Auth(c)))
 	}
+	var debugSwitchedOn int32 // client-debug-on: set when the switch actually happened (the mechanism had that many steps)
 	marker := fmt.Sprintf("marker%08x", mrand.Uint32())
 	if c.Via == "direct" {
 		// the smtp package used directly: Auth is the first command, so the EHLO is sent from inside Auth
@@ -229,7 +231,9 @@ func runC16Case(r *ev.Run, c c16Case) {
 			return
 		}
 		sc.SetLogger(lg)
-		sc.SetDebugLog(true)
+		if c.Fault != "client-debug-on" { // client-debug-on: logging is switched on while the exchange runs
+			sc.SetDebugLog(true)
+		}
 		if c.OptIn {
 			sc.SetLogAuthData()
 		}
@@ -239,6 +243,8 @@ func runC16Case(r *ev.Run, c c16Case) {
 			a = &closingAuth{Auth: a, at: c.FaultStep, closer: func() { _ = sc.Close() }}
 		case "client-quit":
 			a = &closingAuth{Auth: a, at: c.FaultStep, closer: func() { _ = sc.Quit() }}
+		case "client-debug-on":
+			a = &closingAuth{Auth: a, at: c.FaultStep, closer: func() { sc.SetDebugLog(true); atomic.StoreInt32(&debugSwitchedOn, 1) }}
 		}
 		aerr := sc.Auth(a)
 		if aerr != nil && c.Retry {
@@ -349,6 +355,10 @@ func runC16Case(r *ev.Run, c c16Case) {
 				sawMail = true
 			}
 		}
+		lateDebug := c.Fault == "client-debug-on"
+		if lateDebug && atomic.LoadInt32(&debugSwitchedOn) == 0 {
+			sawMail = false // logging never came on in this run
+		}
 		if sawMail {
 			if !strings.Contains(all, "MAIL FROM:<"+marker) && !strings.Contains(all, marker+"@sender.example") {
 				viol("window-not-closed:"+c.Mech, "the server received MAIL FROM for the marker sender after authentication, but the log does not show it in clear (redaction still active?)", ev.Trunc(all, 3000))
@@ -356,7 +366,7 @@ func runC16Case(r *ev.Run, c c16Case) {
 				r.Count("post_auth_records_in_clear", 1)
 			}
 		}
-		if res.Ran && !strings.Contains(all, "EHLO") {
+		if res.Ran && !lateDebug && !strings.Contains(all, "EHLO") {
 			viol("ehlo-not-logged", "debug logging is on but the EHLO line is not in the log", ev.Trunc(all, 1500))
 		}
 	}
@@ -379,7 +389,7 @@ func faultName(c c16Case) string {
 
 func runC16(r *ev.Run, rep *ev.ReplayDoc) ev.Summary {
 	sum := ev.Summary{
-		Rule: "all mechanisms (PLAIN, LOGIN, CRAM-MD5, XOAUTH2, SCRAM-SHA-1/-256, -PLUS over TLS) x random high-entropy credentials (also with '%', blanks, non-ASCII, base64 specials) x server scripts {success, wrong password, 535 / 454 / malformed (non-base64) challenge / unexpected extra challenge / the user-name prompt repeated in place of the expected challenge / disconnect at every step of the exchange, the client closed or quit by another goroutine between two steps, Auth called again on the same smtp.Client after a failed exchange} x {capturing custom logger, log.Stdlog, log.JSONlog} x {default, SetLogAuthData(false)} x {mail.Client with a built-in auth type, mail.Client with WithSMTPAuthCustom, smtp.Client.Auth as first command} x server announcing {the mechanism, no AUTH keyword, other mechanisms only, HELO only} (the server accepts the command regardless), debug logging on; if the connection survives a message with marker addresses is sent. A control group with WithLogAuthData shows that the monitor sees secrets when they are logged. distinct by case",
+		Rule: "all mechanisms (PLAIN, LOGIN, CRAM-MD5, XOAUTH2, SCRAM-SHA-1/-256, -PLUS over TLS) x random high-entropy credentials (also with '%', blanks, non-ASCII, base64 specials) x server scripts {success, wrong password, 535 / 454 / malformed (non-base64) challenge / unexpected extra challenge / the user-name prompt repeated in place of the expected challenge / disconnect at every step of the exchange, the client closed or quit - or its debug log switched on - by another goroutine between two steps, Auth called again on the same smtp.Client after a failed exchange} x {capturing custom logger, log.Stdlog, log.JSONlog} x {default, SetLogAuthData(false)} x {mail.Client with a built-in auth type, mail.Client with WithSMTPAuthCustom, smtp.Client.Auth as first command} x server announcing {the mechanism, no AUTH keyword, other mechanisms only, HELO only} (the server accepts the command regardless), debug logging on; if the connection survives a message with marker addresses is sent. A control group with WithLogAuthData shows that the monitor sees secrets when they are logged. distinct by case",
 		Assumptions: []string{
 			"the server never echoes credentials in its reply texts (an echoing server is outside the quantifier)",
 			"forms searched: raw, base64 (std/url/raw), hex, Go-quoted, every client line of the AUTH exchange whose base64 decoding contains the secret, and that decoded text",
@@ -426,7 +436,7 @@ func runC16(r *ev.Run, rep *ev.ReplayDoc) ev.Summary {
 					if !c.TLS && !isPlus(mech) && f == "" {
 						// the exchange is aborted from the client side: another goroutine closes / quits the client between two steps
 						for st2 := 0; st2 < 3; st2++ {
-							for _, cf := range []string{"client-close", "client-quit"} {
+							for _, cf := range []string{"client-close", "client-quit", "client-debug-on"} {
 								c3 := c
 								c3.Via, c3.Fault, c3.FaultStep = "direct", cf, st2
 								cases = append(cases, c3)
@@ -468,9 +478,9 @@ func runC16(r *ev.Run, rep *ev.ReplayDoc) ev.Summary {
 			c.Via, c.Retry = "direct", true
 		}
 		if !c.TLS && !c.Retry && rng.Intn(8) == 0 {
-			c.Via, c.Fault, c.FaultStep = "direct", gen.Pick(rng, []string{"client-close", "client-quit"}), rng.Intn(3)
+			c.Via, c.Fault, c.FaultStep = "direct", gen.Pick(rng, []string{"client-close", "client-quit", "client-debug-on"}), rng.Intn(3)
 		}
-		if !c.TLS && c.Fault != "client-close" && c.Fault != "client-quit" && rng.Intn(5) == 0 {
+		if !c.TLS && !strings.HasPrefix(c.Fault, "client-") && rng.Intn(5) == 0 {
 			c.Via = gen.Pick(rng, []string{"direct", "custom"})
 			c.Advertise = gen.Pick(rng, []string{"", "none", "other", "helo"})
 		}
